@@ -5,7 +5,7 @@ cd /repo || exit 2
 if ! git diff --quiet; then echo "/repo has local changes"; exit 2; fi
 git apply "$patch" || { echo "patch does not apply"; exit 2; }
 rm -rf /verif/.build/evidence.keep && cp -r /verif/evidence /verif/.build/evidence.keep
-trap 'rm -rf /verif/evidence && mv /verif/.build/evidence.keep /verif/evidence; git -C /repo checkout -- . ; git -C /repo clean -fdq; /verif/.build/gotrans kernel /repo /verif/coq/gen/KernelGen.v' EXIT
+trap 'rm -rf /verif/evidence && mv /verif/.build/evidence.keep /verif/evidence; git -C /repo checkout -- . ; git -C /repo clean -fdq; /verif/.build/gotrans kernel /repo /verif/coq/gen/KernelGen.v; /verif/.build/gotrans skel /repo /verif/coq/gen/Skeleton.v' EXIT
 for p in "$@"; do
   start=$(date +%s)
   out=$(cd /verif && timeout 1500 ./check "$p" quick 2>/dev/null); rc=$?
